@@ -7,7 +7,7 @@
 From Coq Require Import ZArith Reals Floats Bool List.
 From Geo Require Import Base.GoPrim Base.F64 Gen.Bounds Model.Bounds.
 From Geo Require Import Proofs.C19_R1 Proofs.C10_S1 Proofs.C10_Rect Proofs.C10_Cap Proofs.C10_Hull
-  Proofs.C10_Numeric Proofs.C10_Refuted.
+  Proofs.C10_Numeric Proofs.C10_Refuted Proofs.C10_CapRect.
 Import ListNotations.
 Local Open Scope R_scope.
 
@@ -25,13 +25,9 @@ Theorem bounder_accumulates_monotonically : forall pre p post r, wf_rect (bd_bou
 Proof. exact bounder_monotone. Qed.
 Print Assumptions bounder_accumulates_monotonically.
 
-(** 2. RectBound() = expanded(2 eps, 0).PolarClosure() contains the running bound (given the
-    C19 soundness of interval expansion by a non-negative margin). *)
+(** 2. RectBound() = expanded(2 eps, 0).PolarClosure() contains the running bound (closed: the
+    interval-expansion soundness lemmas are C19's C19_r1_expanded_sound / C19_s1_expanded_sound). *)
 Theorem rect_bound_contains_running_bound :
-  (forall i m, wf1 i -> nonnan m -> (0 <= rank m < top) ->
-     wf1 (r1_Interval_Expanded i m) /\ forall p, nonnan p -> mem1 i p -> mem1 (r1_Interval_Expanded i m) p) ->
-  (forall i m, valid_s1 i -> nonnan m -> (0 <= rank m < top) ->
-     valid_s1 (s1_Interval_Expanded i m) /\ forall x, inrange x -> mem_s1 i x -> mem_s1 (s1_Interval_Expanded i m) x) ->
   forall r, wf_rect (bd_bound r) -> wf_rect (rect_bound r) /\ rsub (bd_bound r) (rect_bound r).
 Proof. exact rect_bound_sup. Qed.
 Print Assumptions rect_bound_contains_running_bound.
@@ -50,10 +46,6 @@ Proof. exact expand_for_subregions_shape. Qed.
 Print Assumptions expand_for_subregions_is_9eps_expansion.
 
 Theorem subregion_bound_contains_bound :
-  (forall i m, wf1 i -> nonnan m -> (0 <= rank m < top) ->
-     wf1 (r1_Interval_Expanded i m) /\ forall p, nonnan p -> mem1 i p -> mem1 (r1_Interval_Expanded i m) p) ->
-  (forall i m, valid_s1 i -> nonnan m -> (0 <= rank m < top) ->
-     valid_s1 (s1_Interval_Expanded i m) /\ forall x, inrange x -> mem_s1 i x -> mem_s1 (s1_Interval_Expanded i m) x) ->
   forall b, wf_rect b -> rsub b (s2_ExpandForSubregions b).
 Proof. exact expand_for_subregions_sup. Qed.
 Print Assumptions subregion_bound_contains_bound.
@@ -103,6 +95,15 @@ Theorem cell_cap_bound_contains_its_vertices : forall center vs v,
   s2_Cap_ContainsPoint (cell_cap_bound center vs) v = true.
 Proof. exact cell_cap_bound_contains_vertices. Qed.
 Print Assumptions cell_cap_bound_contains_its_vertices.
+
+(** 5b. Cap.RectBound (after /repo bc3af1c) returns a valid longitude interval whenever the two
+    math.Remainder results are numbers in [-pi, pi]. *)
+Theorem cap_rect_bound_longitude_is_valid : forall c,
+  (forall a, vpt (go_remainder (PrimFloat.sub (cap_lng c) a) TWO_PI) /\
+             vpt (go_remainder (PrimFloat.add (cap_lng c) a) TWO_PI)) ->
+  valid_s1 (s2_Rect_Lng (s2_Cap_RectBound c)).
+Proof. exact cap_rectbound_lng_valid. Qed.
+Print Assumptions cap_rect_bound_longitude_is_valid.
 
 (** 6. monotoneChain over an abstract orientation predicate: consecutive triples are CCW, the
     output is a subsequence of the (sorted) input, first and last points are preserved. *)
